@@ -26,8 +26,9 @@ ASSUMPTIONS = [
     "Eckart-Young clause (error = norm of discarded values) follows from the selection contract plus isometry of U,V, which is "
     "assumed from LAPACK (C04) -- derived on paper, not machine-checked",
 ]
-NOT_DECIDED = ["the *_with_truncation decompositions as a whole (their SVD/eigh parts are LAPACK)",
-               "truncate_multiplets=True"]
+NOT_DECIDED = ["the *_with_truncation decompositions as a whole and the equality |a - U S V| == |discarded| (their SVD/eigh parts are LAPACK): only the "
+               "BOUNDED stand-in h_truncation_relations (enumerated concrete tensors, 1e-9) -- not a proof",
+               "truncate_multiplets=True (selection rule itself)"]
 
 
 class BackendProxy:
@@ -222,8 +223,13 @@ def profiles(maxlen, maxsec=3):
     return out
 
 
+import contracts.linalg_bounded as LB
+from contracts.linalg_bounded import h_truncation_relations
+BOUNDED_HARNESSES = {'h_truncation_relations'}
+
+
 def units(tier):
-    U = []
+    U = LB.units_c13(tier)
     th = tier == 'thorough'
     for prof in profiles(4 if th else 3):
         ns = len(prof)
